@@ -237,12 +237,16 @@ Section Run.
   (* the specification's verdict for every field of object r *)
   Definition verdicts (C : chain) (h : heap) (r : nat) : list Z :=
     map (fun f => match getattr h r (f_name f) with Some v => verdict_code E h (f_ann f) v | None => 97 end) (dc_fields C).
-  (* ... of the object as it exists when __post_init__ is about to run, whatever happens afterwards *)
+  (* ... of the object the property text describes for this request (Spec.DataclassSpec.spec_value): independent
+     of the decorator program, so that the oracle stays what it is when the program is a mutated one *)
   Definition cand_verdicts (C : chain) (p : path) (st : state) : list Z :=
-    match path_candidate P C p st with
-    | (st1, Ok r) => verdicts C (s_heap st1) r
-    | (_, Raise _) => [96]
-    end.
+    let '(orig, kw) := match p with ByCtor kw => (None, kw) | ByCopy r0 kw | ByDeep r0 kw => (Some r0, kw) end in
+    if request_ok (dc_fields C) kw then
+      map (fun f => match spec_value (s_heap st) orig kw f with
+                    | Some (h', v) => verdict_code E h' (f_ann f) v
+                    | None => 97
+                    end) (dc_fields C)
+    else [96].
 
   (* identity of the copy's fields with the original's and with the keyword values; mutable sharing *)
   Definition obs_copy (C : chain) (st0 st : state) (r0 r : nat) (kw : list (name * value)) : list Z :=
